@@ -101,6 +101,61 @@ pub fn check7<Y>(st: &mut St<Y>, m: &Model, c: &[u8; 7], expect: u16, all: bool)
     }
 }
 
+/// Rank `prev` and then `cur` through each entry point in turn; `cur` must get its own value.
+fn twin_probe7<Y>(st: &mut St<Y>, m: &Model, prev: &[u8; 7], cur: &[u8; 7], expect: u16) {
+    let (p, c) = (Seven::from(words_of(prev)), Seven::from(words_of(cur)));
+    st.flight("Seven ranking after a twin", &words_of(cur));
+    let got = [
+        { let _ = p.hand_rank_value(); c.hand_rank_value() },
+        { let _ = p.hand_rank_value_and_hand(); c.hand_rank_value_and_hand().0 },
+        { let _ = p.hand_rank(); c.hand_rank().value },
+        { let _ = p.hand_rank_value_validated(); c.hand_rank_value_validated() },
+    ];
+    st.rep.evaluations += 8;
+    st.rep.add("twin_history_probes", 1);
+    const E: [&str; 4] = ["Seven::hand_rank_value", "Seven::hand_rank_value_and_hand.0", "Seven::hand_rank().value", "Seven::hand_rank_value_validated"];
+    for k in 0..4 {
+        if got[k] != expect {
+            let mut both = prev.to_vec();
+            both.extend_from_slice(cur);
+            st.rep.violation(
+                "the value does not depend on which hand was ranked before",
+                &format!("{} after ranking a suit-swapped twin", E[k]),
+                Input::Idx(both),
+                describe(m, expect),
+                format!("{} right after ranking {}", describe(m, got[k]), model::hand_name(prev)),
+            );
+        }
+    }
+}
+
+fn twin_probe6<Y>(st: &mut St<Y>, m: &Model, prev: &[u8; 6], cur: &[u8; 6], expect: u16) {
+    let (p, c) = (Six::from(words_of(prev)), Six::from(words_of(cur)));
+    st.flight("Six ranking after a twin", &words_of(cur));
+    let got = [
+        { let _ = p.hand_rank_value(); c.hand_rank_value() },
+        { let _ = p.hand_rank_value_and_hand(); c.hand_rank_value_and_hand().0 },
+        { let _ = p.hand_rank(); c.hand_rank().value },
+        { let _ = p.hand_rank_value_validated(); c.hand_rank_value_validated() },
+    ];
+    st.rep.evaluations += 8;
+    st.rep.add("twin_history_probes", 1);
+    const E: [&str; 4] = ["Six::hand_rank_value", "Six::hand_rank_value_and_hand.0", "Six::hand_rank().value", "Six::hand_rank_value_validated"];
+    for k in 0..4 {
+        if got[k] != expect {
+            let mut both = prev.to_vec();
+            both.extend_from_slice(cur);
+            st.rep.violation(
+                "the value does not depend on which hand was ranked before",
+                &format!("{} after ranking a suit-swapped twin", E[k]),
+                Input::Idx(both),
+                describe(m, expect),
+                format!("{} right after ranking {}", describe(m, got[k]), model::hand_name(prev)),
+            );
+        }
+    }
+}
+
 /// Which of the harness's own five-slot rows attain the best value (oracle only).
 fn best_rows(m: &Model, c: &[u8], rows: &[Vec<u8>]) -> (u16, Vec<usize>) {
     let mut best = u16::MAX;
@@ -142,6 +197,8 @@ pub fn run(ctx: &Ctx) -> Rep {
     let perms_each_7 = ctx.pick(1, 1, 2);
     let xcheck_6 = ctx.pick(1, 16, 1);
     let xcheck_7 = ctx.pick(1, 128, 8);
+    let twin_rate_6 = ctx.pick(1, 1, 1);
+    let twin_rate_7 = ctx.pick(1, 8, 1);
     let rows_rate_6 = ctx.pick(1, 16, 2);
     let rows_rate_7 = ctx.pick(1, 64, 8);
 
@@ -164,6 +221,20 @@ pub fn run(ctx: &Ctx) -> Rep {
                 let p = permuted(c, &mut rng);
                 check6(st, &m, &p, expect, false);
                 st.x.orders += 1;
+            }
+        }
+        if expect <= 166 && !ctx.smoke() {
+            let mut rng = Rng::new(seed, drive::hand_code(c) ^ 0x6565);
+            for k in 0..32 {
+                let p = permuted(c, &mut rng);
+                check6(st, &m, &p, expect, k < 4);
+                st.x.orders += 1;
+            }
+        }
+        if drive::max_suit_count(c) >= 5 && selected(c, seed, 0x66, twin_rate_6) {
+            for t in drive::suit_swap_twins(c) {
+                let tw: [u8; 6] = t.try_into().unwrap();
+                twin_probe6(st, &m, &tw, c, expect);
             }
         }
         if selected(c, seed, 0x64, rows_rate_6) {
@@ -202,6 +273,25 @@ pub fn run(ctx: &Ctx) -> Rep {
                 let p = permuted(c, &mut rng);
                 check7(st, &m, &p, expect, false);
                 st.x.orders += 1;
+            }
+        }
+        // rare categories (straight flush, quads: 266,432 hands) get 32 extra seeded slot orders each: an
+        // order-dependent shortcut taken only for such hands is then met by every one of them
+        if expect <= 166 && !ctx.smoke() {
+            let mut rng = Rng::new(seed, drive::hand_code(c) ^ 0x7575);
+            for k in 0..32 {
+                let p = permuted(c, &mut rng);
+                check7(st, &m, &p, expect, k < 4);
+                st.x.orders += 1;
+            }
+        }
+        // call-history probe: the same hand ranked right after each of its suit-swapped twins, through every
+        // entry point (a value must not depend on what was ranked before); hands with five or more cards of a
+        // suit (twins share the suit histogram, so only there can a twin differ in value), a seeded share of them in the quick tier
+        if drive::max_suit_count(c) >= 5 && selected(c, seed, 0x76, twin_rate_7) {
+            for t in drive::suit_swap_twins(c) {
+                let tw: [u8; 7] = t.try_into().unwrap();
+                twin_probe7(st, &m, &tw, c, expect);
             }
         }
         if selected(c, seed, 0x74, rows_rate_7) {
@@ -290,8 +380,47 @@ pub fn run(ctx: &Ctx) -> Rep {
     rc.distinct = 0; // arrangements of hands already counted as subsets above
     rep.merge(rc);
 
+    // ---- D: every slot order of a class-covering set ---------------------------------------------
+    // For every one of the 7462 classes, one six-card and one seven-card hand containing it (its
+    // representative plus seeded extra cards) in ALL 720 / 5040 slot orders: closes the slot-order
+    // dimension on a set of hands that covers every class as best or near-best hand.
+    let perms6: Vec<[u8; 8]> = (0..drive::factorial(6)).map(|k| drive::nth_permutation(6, k)).collect();
+    let perms7: Vec<[u8; 8]> = (0..drive::factorial(7)).map(|k| drive::nth_permutation(7, k)).collect();
+    let std_ = par_run(ctx, classes.len(), mk, |st, ci| {
+        let o = classes[ci];
+        let base = m.representative[o];
+        let mut rng = Rng::new(seed, 0xC02_8000 + o as u64);
+        let mut cards: Vec<u8> = base.to_vec();
+        while cards.len() < 7 {
+            let x = rng.below(52) as u8;
+            if !cards.contains(&x) {
+                cards.push(x);
+            }
+        }
+        let c7: [u8; 7] = cards.clone().try_into().unwrap();
+        let c6: [u8; 6] = cards[..6].to_vec().try_into().unwrap();
+        let e7 = m.ord_best(&c7);
+        let e6 = m.ord_best(&c6);
+        if !ctx.smoke() || o % 970 == 0 {
+            for p in &perms6 {
+                let a = [c6[p[0] as usize], c6[p[1] as usize], c6[p[2] as usize], c6[p[3] as usize], c6[p[4] as usize], c6[p[5] as usize]];
+                check6(st, &m, &a, e6, false);
+            }
+            for p in &perms7 {
+                let a = [c7[p[0] as usize], c7[p[1] as usize], c7[p[2] as usize], c7[p[3] as usize], c7[p[4] as usize], c7[p[5] as usize], c7[p[6] as usize]];
+                check7(st, &m, &a, e7, false);
+            }
+            st.rep.add("class_hands_ranked_in_every_slot_order", 2);
+            st.x.orders += (perms6.len() + perms7.len()) as u64;
+        }
+    });
+    let (rd, xd) = merge_states(std_);
+    let mut rd = rd;
+    rd.distinct = 0;
+    rep.merge(rd);
+
     let mut acc = mk();
-    for x in x6.into_iter().chain(x7).chain(xc) {
+    for x in x6.into_iter().chain(x7).chain(xc).chain(xd) {
         for k in 0..9 {
             acc.cat6[k] += x.cat6[k];
             acc.cat7[k] += x.cat7[k];
@@ -330,8 +459,8 @@ pub fn run(ctx: &Ctx) -> Rep {
     rep.rule = format!(
         "every 6-subset and every 7-subset of the deck in canonical slot order (enumerated once each = distinct) through hand_rank_value_and_hand; \
          the other three entry points on a seeded 1-in-{}/1-in-{} selection; {} seeded slot order(s) for 1-in-{} six-card and {} for 1-in-{} seven-card hands; \
-         plus the row-targeting set (every class x every five-slot row with a uniquely best sub-hand placed in that row). \
-         Oracle = direct rule-based evaluation, cross-checked against min over 5-subsets. thorough={}",
+         plus the row-targeting set (every class x every five-slot row with a uniquely best sub-hand placed in that row) and, for every class, one six- and one seven-card hand in all 720 / 5040 slot orders. \
+         32 extra seeded orders for every hand whose best is a straight flush or quads; every hand with five or more cards of a suit (a seeded 1-in-8 of the seven-card ones in quick) ranked right after each of its suit-swapped twins through all four entry points. Oracle = direct rule-based evaluation, cross-checked against min over 5-subsets. thorough={}",
         all_entries_6, all_entries_7, perms_each_6, perm_rate_6, perms_each_7, perm_rate_7, thorough
     );
     rep
@@ -361,7 +490,23 @@ pub fn replay(_ctx: &Ctx, inp: &Input, _clause: &str) -> Rep {
                 st.rep.violation("panic", "Seven ranking", inp.clone(), "normal return".into(), msg);
             }
         }
-        _ => bad_replay(&mut rep, "C02 wants idx: six or seven distinct deck indices"),
+        Input::Idx(v) if v.len() == 12 && ok(&v[..6].to_vec()) && ok(&v[6..].to_vec()) => {
+            let p: [u8; 6] = v[..6].to_vec().try_into().unwrap();
+            let c: [u8; 6] = v[6..].to_vec().try_into().unwrap();
+            let e = m.ord_best_by_subsets(&c);
+            if let Err(msg) = drive::guard(|| twin_probe6(&mut st, &m, &p, &c, e)) {
+                st.rep.violation("panic", "Six ranking", inp.clone(), "normal return".into(), msg);
+            }
+        }
+        Input::Idx(v) if v.len() == 14 && ok(&v[..7].to_vec()) && ok(&v[7..].to_vec()) => {
+            let p: [u8; 7] = v[..7].to_vec().try_into().unwrap();
+            let c: [u8; 7] = v[7..].to_vec().try_into().unwrap();
+            let e = m.ord_best_by_subsets(&c);
+            if let Err(msg) = drive::guard(|| twin_probe7(&mut st, &m, &p, &c, e)) {
+                st.rep.violation("panic", "Seven ranking", inp.clone(), "normal return".into(), msg);
+            }
+        }
+        _ => bad_replay(&mut rep, "C02 wants idx: six or seven distinct deck indices (or two such hands: previous, current)"),
     }
     st.rep.distinct = 1;
     rep.merge(st.rep);
